@@ -1,5 +1,6 @@
 import UgoVerif.Go.Utf8
 import UgoVerif.Model.JsonScan
+import UgoVerif.Spec.Json
 /-
   stdlib/json/encode.go: `Marshal` for the uGO value types.  Hand model tied to the
   implementation by the `json` stream (output bytes and error kinds).
@@ -79,6 +80,15 @@ def floatText (L : JsonLib) (f : F64) : Bytes :=
   let b := L.appendFloat f useE
   if useE then cleanExp b else b
 
+/-- What the theorems assume about `strconv.AppendFloat` (checked by the driver on every
+    float the `json` stream formats): the text `floatEncoder` writes for a finite float is a
+    JSON number token, and every byte of it may stand inside a JSON string (quoted mode). -/
+structure JsonLib.OK (L : JsonLib) : Prop where
+  float_token : ∀ f : F64, F64.isInf f = false → f.isNaN = false →
+    Spec.Json.isNumber (floatText L f) = true
+  float_plain : ∀ f : F64, F64.isInf f = false → f.isNaN = false →
+    ∀ x ∈ floatText L f, x.toNat ≠ 0x22 ∧ x.toNat ≠ 0x5C ∧ 0x20 ≤ x.toNat
+
 /-! ### base64.StdEncoding -/
 
 def b64char (n : Nat) : UInt8 :=
@@ -148,7 +158,9 @@ def quoteIf (q : Bool) (b : Bytes) : Bytes := if q then 0x22 :: (b ++ [0x22]) el
 
 /-! ### the encoders -/
 
-def strBytes (s : String) : Bytes := s.toUTF8.toList
+def nullB : Bytes := [0x6E, 0x75, 0x6C, 0x6C]
+def trueB : Bytes := [0x74, 0x72, 0x75, 0x65]
+def falseB : Bytes := [0x66, 0x61, 0x6C, 0x73, 0x65]
 
 def unsupportedValue (s : String) : Err := .other "UnsupportedValueError" s
 def unsupportedType (tn : String) : Err := .other "UnsupportedTypeError" tn
@@ -183,9 +195,9 @@ def encRaw (escapeHTML : Bool) (b : Bytes) : Res Bytes :=
 mutual
 /-- `e.encode(v, opts)`; `empty` says that nothing has been written to the buffer yet -/
 def enc (L : JsonLib) (quoted escapeHTML : Bool) (empty : Bool) : JV → Res Bytes
-  | .undefined => .ok (strBytes "null")
-  | .nil => .ok (strBytes "null")
-  | .bool b => .ok (quoteIf quoted (strBytes (if b then "true" else "false")))
+  | .undefined => .ok nullB
+  | .nil => .ok nullB
+  | .bool b => .ok (quoteIf quoted (if b then trueB else falseB))
   | .int v => .ok (quoteIf quoted (fmtInt v.toInt))
   | .uint v => .ok (quoteIf quoted (fmtNat v.toNat))
   | .char v => .ok (quoteIf quoted (fmtInt v.toInt))
@@ -207,9 +219,9 @@ def enc (L : JsonLib) (quoted escapeHTML : Bool) (empty : Bool) : JV → Res Byt
     | .err e => .err e
     | .panic m => .panic m
   | .opts q e v => enc L q e empty v
-  | .ptrNil => .ok (strBytes "null")
+  | .ptrNil => .ok nullB
   | .ptr v => enc L quoted escapeHTML empty v
-  | .rawNil => encRaw escapeHTML (strBytes "null")
+  | .rawNil => encRaw escapeHTML nullB
   | .raw b => encRaw escapeHTML b
   | .errval => if empty then .ok [] else .err (unsupportedType "error")
   | .opaque tn => .err (unsupportedType tn)
@@ -238,6 +250,13 @@ def encMembers (L : JsonLib) (quoted escapeHTML : Bool) : List (Bytes × JV) →
     | .err e => .err e
     | .panic m => .panic m
 end
+
+/-- the value is an error value once the wrappers that write nothing are removed -/
+def isTopErr : JV → Bool
+  | .errval => true
+  | .opts _ _ v => isTopErr v
+  | .ptr v => isTopErr v
+  | _ => false
 
 /-- `Marshal(v)` -/
 def marshal (L : JsonLib) (v : JV) : Res Bytes := enc L false true true v
